@@ -175,6 +175,10 @@ func protoWorld(rc *RunCtx) {
 			w.execGarbage(op)
 		case "negotiate":
 			w.execNegotiate(op)
+		case "abortup":
+			w.execAbortUpload(op)
+		case "badquery":
+			w.execBadQuery(op)
 		case "http":
 			w.execHTTPReq(op)
 		case "twinpub":
@@ -902,7 +906,7 @@ func genHTTPOps(rc *RunCtx, c PCfg) []Op {
 	routes := []string{"/pub", "/mpub", "/topic/create", "/topic/delete", "/topic/empty", "/topic/pause", "/topic/unpause",
 		"/channel/create", "/channel/delete", "/channel/empty", "/channel/pause", "/channel/unpause", "/stats", "/ping", "/info", "/config/log_level", "/config/nope", "/nope", "/", "/debug/setblockrate", "/debug/pprof/cmdline"}
 	for len(ops) < n {
-		switch r.Weighted([]int{50, 30, 3}) {
+		switch r.Weighted([]int{50, 30, 3, 6, 5}) {
 		case 0:
 			add(Op{Kind: "http", S: routes[r.Intn(len(routes))], S2: r.PickS("POST", "POST", "POST", "GET", "PUT", "DELETE"),
 				A: int64(r.Intn(10)), B: int64(r.Intn(10)), C: int64(r.Intn(12)), D: int64(r.Intn(16))})
@@ -910,6 +914,10 @@ func genHTTPOps(rc *RunCtx, c PCfg) []Op {
 			add(Op{Kind: "twinpub", A: int64(r.Intn(6)), B: int64(r.Intn(9)), C: int64(r.Intn(10)), D: int64(r.Range(1, 5))})
 		case 2:
 			add(Op{Kind: "adv", A: int64(r.Pick(10, 1000))})
+		case 3:
+			add(Op{Kind: "abortup", A: int64(r.Intn(4)), B: int64(r.Intn(6)), C: int64(r.Intn(1000)), D: int64(r.Range(1, 4))})
+		case 4:
+			add(Op{Kind: "badquery", A: int64(r.Intn(4)), B: int64(r.Intn(8)), C: int64(r.Intn(6))})
 		}
 	}
 	return ops
@@ -1542,4 +1550,131 @@ func (w *pWorld) execNegotiate(op Op) {
 	if !ok || f.Type != frameError || errCode(f.Data) != "E_INVALID" {
 		w.violate("C09", "wrong-answer", "after negotiating %v: TOUCH before SUB answered %q ok=%v (expected fatal E_INVALID over the upgraded connection)", opts, trunc(f.Data, 60), ok)
 	}
+}
+
+// execAbortUpload: a publish request whose upload breaks off (declared length
+// or chunked; single, text and binary multi-publish). The request was never
+// completed, so - like a TCP PUB/MPUB cut off inside its body - it enqueues
+// nothing: the topic's message count must not move.
+func (w *pWorld) execAbortUpload(op Op) {
+	rc := w.rc
+	r := NewPRNG(rc.Seed*733 + uint64(op.Uid))
+	topic := []string{"h0", "h0", "h1", "h0"}[op.A%4]
+	n := int(op.D)
+	var lines [][]byte
+	for i := 0; i < n; i++ {
+		sz := 1 + r.Intn(int(w.cfg.MaxMsgSize))
+		if sz > 40 {
+			sz = 1 + r.Intn(40)
+		}
+		lines = append(lines, bytes.Repeat([]byte{byte('a' + i)}, sz))
+	}
+	var path string
+	var body []byte
+	switch op.B % 3 {
+	case 0:
+		path = "/pub?topic=" + topic
+		body = lines[0]
+		if len(body) < 2 {
+			body = append(body, 'z')
+		}
+	case 1:
+		path = "/mpub?topic=" + topic
+		body = append(bytes.Join(lines, []byte("\n")), '\n')
+	default:
+		path = "/mpub?binary=true&topic=" + topic
+		body = mpubBody(lines)
+	}
+	chunked := op.B%6 >= 3
+	var raw bytes.Buffer
+	headLen, payloadEnd := 0, 0
+	var cuts []int // offsets (into raw) at which the upload may stop: after at least one body byte, before the request is complete
+	if chunked {
+		fmt.Fprintf(&raw, "POST %s HTTP/1.1\r\nHost: nsqd\r\nTransfer-Encoding: chunked\r\n\r\n", path)
+		headLen = raw.Len()
+		rest := body
+		for len(rest) > 0 {
+			k := 1 + r.Intn(len(rest))
+			fmt.Fprintf(&raw, "%x\r\n", k)
+			raw.Write(rest[:k])
+			payloadEnd = raw.Len()
+			raw.WriteString("\r\n")
+			rest = rest[k:]
+			if len(rest) > 0 {
+				cuts = append(cuts, raw.Len()) // after a complete chunk: everything so far is well-formed, the rest is missing
+			}
+		}
+		raw.WriteString("0\r\n\r\n")
+	} else {
+		fmt.Fprintf(&raw, "POST %s HTTP/1.1\r\nHost: nsqd\r\nContent-Length: %d\r\n\r\n", path, len(body))
+		headLen = raw.Len()
+		raw.Write(body)
+		for i, c := range body[:len(body)-1] {
+			if c == '\n' {
+				cuts = append(cuts, headLen+i+1) // right after a complete line
+			}
+		}
+	}
+	total := raw.Len()
+	cut := headLen + 1 + r.Intn(total-headLen-1)
+	if chunked {
+		// at least one byte of the payload itself is missing (a self-delimiting binary batch whose bytes all arrived,
+		// with only the terminating chunk missing, is a border case the statement leaves open)
+		cut = headLen + 1 + r.Intn(payloadEnd-1-headLen)
+	}
+	if len(cuts) > 0 && op.C%2 == 0 {
+		cut = cuts[int(op.C/2)%len(cuts)]
+	}
+	if cut >= total {
+		cut = total - 1
+	}
+	c, err := rc.Net.DialFrom(nil, w.http)
+	if err != nil {
+		w.violate("C10", "refused", "connect: %v", err)
+		return
+	}
+	c.SetLimitOut(0)
+	c.Write(raw.Bytes()[:cut])
+	synctest.Wait()
+	if op.C%3 == 0 {
+		c.Reset()
+	} else {
+		c.Close()
+	}
+	synctest.Wait()
+	rc.Fault("http_upload_aborted")
+	rc.Logf("aborted upload %s chunked=%v: %d of %d bytes", path, chunked, cut, total)
+	w.noteMaybeTopic(topic, true)
+	w.checkRegistryHTTP()
+	if rc.Failed() && rc.viol != nil && rc.viol.Class == "unexpected-state" {
+		rc.viol.Detail = fmt.Sprintf("after an upload to %s (chunked=%v) that broke off after %d of %d bytes: %s", path, chunked, cut, total, rc.viol.Detail)
+	}
+}
+
+// execBadQuery: a request whose query string cannot be parsed (bad percent
+// escape, semicolon separator) carries invalid arguments: 400, and no effect.
+func (w *pWorld) execBadQuery(op Op) {
+	rc := w.rc
+	topic := []string{"h0", "h1", "ghost", "h0"}[op.A%4]
+	bad := []string{"&defer=%zz", "&x=%", "&defer=100;x=1", ";topic=h1", "&%gg=1", "&binary=%zz", "&a=b;c=d", "&channel=%ff%zz"}[op.B%8]
+	route := []string{"/pub", "/mpub", "/topic/create", "/topic/pause", "/channel/create", "/topic/empty"}[op.C%6]
+	pathq := route + "?topic=" + topic + bad
+	body := []byte("bq")
+	if route != "/pub" && route != "/mpub" {
+		body = nil
+	}
+	raw := fmt.Sprintf("POST %s HTTP/1.1\r\nHost: nsqd\r\nConnection: close\r\nContent-Length: %d\r\n\r\n%s", pathq, len(body), body)
+	out, err := httpRaw(rc, w.http, []byte(raw), 30*time.Second)
+	rc.Probe("malformed_query_requests")
+	status := 0
+	if len(out) > 12 {
+		fmt.Sscanf(string(out[9:12]), "%d", &status)
+	}
+	rc.Logf("bad query %s -> %d err=%v", pathq, status, err)
+	if status != 400 {
+		w.violate("C10", "wrong-status", "POST %s (query string that cannot be parsed) answered %d %q, documented [400]", pathq, status, trunc(out, 80))
+		return
+	}
+	w.noteMaybeTopic(topic, true)
+	w.checkRegistryHTTP()
 }
